@@ -21,8 +21,9 @@ def gen_cfg(path, prelude, depth, maxnodes, mode, pinned=False, inv=None, nc=2, 
         if mode == "bfs":
             f.write("SPECIFICATION HSpec\nINVARIANTS HTypeOK HAcyclic FileCurrent ClassTotal ArtDefined FrameLaw EmitLeafH\n"
                     "PROPERTY RefinesGraphEdit\nVIEW ViewH\n")
-        elif mode == "sandwich":
-            f.write("SPECIFICATION SandwichSpec\nINVARIANTS HTypeOK HAcyclic FileCurrent EmitSandwich\nVIEW ViewSandwich\n")
+        elif mode in ("sandwich", "revert"):
+            f.write("SPECIFICATION %s\nINVARIANTS HTypeOK HAcyclic FileCurrent EmitSandwich\nVIEW ViewSandwich\n" %
+                    ("SandwichSpec" if mode == "sandwich" else "RevertSpec"))
         elif mode == "sim":
             f.write("SPECIFICATION SimSpec\nINVARIANTS HTypeOK HAcyclic FileCurrent EmitLeafH\n")
         elif mode == "design":
@@ -298,10 +299,12 @@ def generate(ctx, quick, rnd):
     for prelude, depth, maxn, cap in plan:
         jobs.append((("bfs", prelude, depth, cap), "HttpEdit", dict(prelude=prelude, depth=depth, maxnodes=maxn, mode="bfs"),
                      dict(workers=1, timeout=3000, heap="6g")))
-    # (1b) evaluate - edit - evaluate around every valid edit (stale caches behind the API)
+    # (1b) evaluate - edit - evaluate around every valid edit (stale caches behind the API);
+    #      edit - POST /graph of the graph from before - GET /graph (whole-graph replacement and its autosave)
     for prelude, maxn in [("PreludeSmall", 6), ("PreludeLoop", 7)] + ([] if quick else [("PreludeMixed", 9), ("PreludeTwelve", 6)]):
-        jobs.append((("sandwich", prelude), "HttpEdit", dict(prelude=prelude, depth=3, maxnodes=maxn, mode="sandwich"),
-                     dict(workers=1, timeout=3000)))
+        for mode in ("sandwich", "revert"):
+            jobs.append(((mode, prelude), "HttpEdit", dict(prelude=prelude, depth=3, maxnodes=maxn, mode=mode),
+                         dict(workers=1, timeout=3000)))
     # (2) simulation: long walks mixing valid edits, invalid and malformed requests, reads, whole-graph posts
     splan = ([("PreludeSmall", 8, 40, 5), ("PreludeLoop", 8, 40, 5)] if quick else
              [("PreludeSmall", 10, 50, 12), ("PreludeMixed", 11, 50, 10), ("PreludeLoop", 10, 50, 12), ("PreludeTwelve", 8, 50, 12),
@@ -349,13 +352,13 @@ def generate(ctx, quick, rnd):
                 h["tag"] = "bfs:%s:%d" % (prelude, depth)
             ctx.extra["bfs_%s_d%d" % (prelude, depth)] = len(hs)
             hists += share_preludes(hs, len(hs[0]["steps"]) - depth)
-        elif key[0] == "sandwich":
+        elif key[0] in ("sandwich", "revert"):
             ctx.add_tlc(r)
             hs = uniq(r.values, "steps")
             hs.sort(key=lambda h: json.dumps(h, sort_keys=True))
             for h in hs:
-                h["tag"] = "sandwich:" + key[1]
-            ctx.extra["sandwich_" + key[1]] = len(hs)
+                h["tag"] = key[0] + ":" + key[1]
+            ctx.extra[key[0] + "_" + key[1]] = len(hs)
             hists += share_preludes(hs, len(hs[0]["steps"]) - 3)
         elif key[0] == "sim":
             hs = uniq(r.values, "steps")
